@@ -1,5 +1,6 @@
 import NGF.Model.SnippetLex
 import NGF.Model.Telemetry
+import NGF.Model.TelemetryTruth
 import NGF.Model.Proto
 /-
 Driver entry for C19.  Strings travel hex-encoded (UTF-8 bytes; `_` = empty string, `-` = empty list).
@@ -14,12 +15,18 @@ Driver entry for C19.  Strings travel hex-encoded (UTF-8 bytes; `_` = empty stri
         f = hex(name):b:<0|1> | hex(name):o:hex(cur):hex(def):hex(type)
     L text=<hex>                          -> names=<hexlist>           (reference lexer, for cross-checks)
     T filters=<F>                         -> tidy=<0|1>                (are all snippets `isTidy`?)
+    PL labels=<hex(k):hex(v),…|-> ns=<hexlist> pid=<hex>   -> platform=<hex>     (getPlatform)
+    H plus=<0|1> steps=<step>|<step>|…   -> out=<o>|<o>|… sout=…   (handler + processor model; one `o` per batch:
+        step = n | <e|c>;<ok|wf|rf|af>;<R fields separated by `;`>      `none;err=<0|1>` or the 15 counts `;`-separated + `;err=`)
   F = `~` | filter|filter|…      filter = nil | empty | hex(ctx):hex(text),…
 
   judge lines (the PROPERTY evaluated on what the real code returned)
     S filters=<F> dirs=<hexlist> counts=<natlist> marks=<hexlist>
     R <model fields> r_gc=.. r_gw=.. …          (real counts prefixed r_)
     G flags=<f,…> names=<hexlist> values=<hexlist>
+    PL labels=… ns=… pid=<hex> platform=<hex>            (clause `platform-not-closed`)
+    H steps=<jstep>|…    jstep = none;<real> | <R fields of the snapshot, `;`-separated>;<real>
+                         real = r=none | r_gc=..;r_gw=..;…   (clauses `snapshot:<count>`, `snapshot:report-without-graph`)
   answer: ok | fail <sig>[,<sig>…] <hex(detail)>
 -/
 namespace NGF.C19
@@ -189,6 +196,69 @@ def modelLine (line : String) : String :=
       s!"names={showHexList n} values={showHexList v}"
     | none => "bad-op"
   | _ => "bad-op"
+
+/-! ### platform / handler history (task C19-truth) -/
+
+def parseLabels (s : String) : Option (List (Str × Str)) :=
+  if s == "-" || s == "" then some []
+  else (s.splitOn ",").mapM fun e =>
+    match e.splitOn ":" with
+    | [k, v] => do
+      let k ← unhex k
+      let v ← unhex v
+      pure (k, v)
+    | _ => none
+
+def parseK8sState (fs : List String) : Option K8sState := do
+  let labels ← field fs "labels" >>= parseLabels
+  let ns ← field fs "ns" >>= parseHexList
+  let pid ← field fs "pid" >>= unhex
+  pure { labels := labels, providerID := pid, namespaces := ns }
+
+def parseOutcome (s : String) : Option Outcome :=
+  if s == "ok" then some .ok else if s == "wf" then some .writeFails else if s == "rf" then some .reloadFails
+  else if s == "af" then some .apiFails else none
+
+def dummySummary : Summary :=
+  { hasGatewayClass := false, ignoredGatewayClasses := 0, hasGateway := false, ignoredGateways := 0, routes := [], l4Routes := 0,
+    secrets := 0, services := 0, upstreams := [], backendTLSPolicies := 0, policies := [], hasNginxProxy := false,
+    snippetsFilters := [] }
+
+def parseStep (s : String) : Option Batch :=
+  if s == "n" then some ⟨.noChange, dummySummary, .ok⟩
+  else
+    match s.splitOn ";" with
+    | ct :: o :: rest => do
+      let ct ← (if ct == "e" then some ChangeType.endpointsOnly else if ct == "c" then some ChangeType.clusterState else none)
+      let o ← parseOutcome o
+      let sm ← parseSummary rest
+      pure ⟨ct, sm, o⟩
+    | _ => none
+
+def showStepOut (st : HState) : String :=
+  let e := if st.lastError then "1" else "0"
+  match telemetryCounts st with
+  | none => s!"none;err={e}"
+  | some c => (showCounts c).replace " " ";" ++ s!";err={e}"
+
+/-- the states after every batch -/
+def scanBatches (step : HState → Batch → HState) : HState → List Batch → List HState
+  | _, [] => []
+  | st, b :: bs => let st' := step st b; st' :: scanBatches step st' bs
+
+def modelTruthLine (fs : List String) : Option String :=
+  match fs.head? with
+  | some "PL" => do
+    let st ← parseK8sState fs
+    pure s!"platform={hex (getPlatform st)}"
+  | some "H" => do
+    let plus ← boolField fs "plus"
+    let steps ← field fs "steps"
+    let bs ← (steps.splitOn "|").mapM parseStep
+    -- `sout`: the success-only variant (NOT the code; seeded change C19-r4m2), so that the plugin can name a regression
+    pure ("out=" ++ "|".intercalate ((scanBatches (handleBatch plus) .init bs).map showStepOut) ++
+          " sout=" ++ "|".intercalate ((scanBatches (handleBatchSuccessOnly plus) .init bs).map showStepOut))
+  | _ => none
 
 /-! ### judge: snippets -/
 
@@ -401,6 +471,51 @@ def judgeG (flags : List (Str × FlagVal)) (names values : List Str) : List Stri
         | .other c d =>
           if v == w (if c == d then "default" else "user-defined") then none else some "flag:default-wrong").eraseDups
 
+/-! ### judge: platform (clause `platform-not-closed`; follows from the word ONLY of the property's title) -/
+
+/-- offset of the first `://` (index search, written independently of the model's `cutScheme`) -/
+def firstSep (s : Str) : Option Nat :=
+  (List.range (s.length + 1)).find? fun i => (s.drop i).take 3 == [':', '/', '/']
+
+/-- remove Unicode white space at both ends (reverse/dropWhile; independent of the model's `trimRight`) -/
+def trimBoth (s : Str) : Str := ((s.dropWhile isGoSpace).reverse.dropWhile isGoSpace).reverse
+
+def platformWords : List Str := ["openshift", "rancher", "gke", "eks", "aks", "kind", "k3s", "other"].map String.toList
+
+/-- the reported platform is one of the eight constants, or `other_<x>` with `<x>` ≠ "" the trimmed text before the first
+`://` of a providerID that contains `://` -/
+def judgePlatform (pid platform : Str) : List String :=
+  if platformWords.contains platform then []
+  else if "other_".toList.isPrefixOf platform then
+    let x := platform.drop 6
+    match firstSep pid with
+    | some i => if !x.isEmpty && x == trimBoth (pid.take i) then [] else ["platform-not-closed"]
+    | none => ["platform-not-closed"]
+  else ["platform-not-closed"]
+
+/-! ### judge: handler history — every report comes from ONE snapshot (graph + the configuration built from it) -/
+
+def judgeStep (s : String) : List String :=
+  let fs := s.splitOn ";"
+  let realNone := field fs "r" == some "none"
+  if fs.head? == some "none" then
+    if realNone then [] else ["snapshot:report-without-graph"]
+  else
+    match parseSummary fs with
+    | none => ["bad-op"]
+    | some sm =>
+      if realNone then []   -- nothing reported: nothing to hold against the snapshot (the correspondence compares it with the model)
+      else (judgeR sm fs).map fun c => "snapshot:" ++ (c.drop 6).toString
+
+def judgeH (steps : List String) : List String × Str :=
+  let rec go (i : Nat) : List String → List String × Str
+    | [] => ([], [])
+    | s :: rest =>
+      match judgeStep s with
+      | [] => go (i + 1) rest
+      | sigs => (sigs.eraseDups, (toString i).toList)
+  go 0 steps
+
 def verdict (sigs : List String) (detail : Str) : String :=
   if sigs.isEmpty then "ok" else s!"fail {",".intercalate sigs} {hex detail}"
 
@@ -421,13 +536,29 @@ def judgeLine (line : String) : String :=
           field fs "values" >>= parseHexList with
     | some f, some n, some v => verdict (judgeG f n v) []
     | _, _, _ => "bad-op"
+  | some "PL" =>
+    match field fs "pid" >>= unhex, field fs "platform" >>= unhex with
+    | some pid, some pl => verdict (judgePlatform pid pl) pl
+    | _, _ => "bad-op"
+  | some "H" =>
+    match field fs "steps" with
+    | some st =>
+      let (sigs, det) := judgeH (st.splitOn "|")
+      if sigs.contains "bad-op" then "bad-op" else verdict sigs det
+    | none => "bad-op"
   | _ => "bad-op"
+
+def modelLine2 (line : String) : String :=
+  let fs := line.splitOn " "
+  match fs.head? with
+  | some "PL" | some "H" => (modelTruthLine fs).getD "bad-op"
+  | _ => modelLine line
 
 def driver (args : List String) : IO UInt32 := do
   let stdin ← IO.getStdin
   let stdout ← IO.getStdout
   match args with
-  | ["model"] => forEachLine stdin fun l => stdout.putStrLn (modelLine l)
+  | ["model"] => forEachLine stdin fun l => stdout.putStrLn (modelLine2 l)
   | ["judge"] => forEachLine stdin fun l => stdout.putStrLn (judgeLine l)
   | _ => IO.eprintln "usage: C19 model|judge"; return 2
   return 0
